@@ -100,6 +100,10 @@ def form_of(X, form):
         X[-1] = X[0]
     if form == "scaled_1e3":
         X = X * 1e3
+    if form == "strided_view":        # every other row of a larger array with the columns reversed: non-contiguous, negative stride
+        big = np.zeros((2 * X.shape[0], X.shape[1]))
+        big[::2] = X[:, ::-1]
+        X = big[::2, ::-1]
     if form == "readonly":            # the caller's arrays are not writeable (memory-mapped data, arrays shared between processes)
         X = X.copy()
         X.setflags(write=False)
@@ -257,7 +261,7 @@ def explorers(tier, seed):
             n, d = shape
             ax = axes_for(name, n, d)
             base = {"random_state": seed}
-            for form in ("float64", "fortran", "int", "float32", "list", "zero_column", "constant_column", "duplicate_rows", "scaled_1e3", "readonly", "numpy_scalars"):
+            for form in ("float64", "fortran", "int", "float32", "list", "zero_column", "constant_column", "duplicate_rows", "scaled_1e3", "readonly", "numpy_scalars", "strided_view"):
                 cases.append((name, dict(base), shape, form, seed))
             if name in M.SPARSE and d >= 2:
                 # a never-varying feature receives an exactly zero gradient: with a strong penalty its weights (alone, as a singleton group,
